@@ -706,6 +706,38 @@ def run (st : St) : List Op → St
   | [] => st
   | o :: os => run (step st o).1 os
 
+/-! ### batch requests (`batch_input` of encrypt / decrypt / rewrap) -/
+
+/-- the derivation-context field of a batchable request -/
+def Op.ctxField : Op → Option String
+  | .encrypt _ c _ _ _ => some c
+  | .decrypt _ _ _ c _ => some c
+  | .rewrap _ _ c => some c
+  | _ => none
+
+def Op.ctxSet (o : Op) : Bool :=
+  match o.ctxField with
+  | some c => c != "-"
+  | none => false
+
+/-- "context should be set either in all the request blocks or in none": compared with the first item -/
+def ctxMixed : List Op → Bool
+  | [] => false
+  | o :: os => os.any (fun x => x.ctxSet != o.ctxSet)
+
+/-- the results of the items, each processed in the state its predecessors left (only the artifact table grows) -/
+def outs : St → List Op → List Out
+  | _, [] => []
+  | st, o :: os => (step st o).2 :: outs (step st o).1 os
+
+/-- a `batch_input` request: whole-request refusals first (no items, mixed contexts, unknown key), then the items one
+    after the other with the single-request semantics -/
+def batch (st : St) (items : List Op) : St × Except String (List Out) :=
+  if items.isEmpty then (st, .error "emptybatch") else
+  if ctxMixed items then (st, .error "ctxmix") else
+  if st.pol.isNone then (st, .error "nokey") else
+  (run st items, .ok (outs st items))
+
 /-- an operation of the transit endpoints that plans no storage fault (the histories of the property); the two
     harness-only operations — a planned storage fault and the unguarded assignment of the minimum versions — are
     excluded -/
